@@ -13,7 +13,11 @@ template <class T> std::vector<T> nativeCall (const std::string& name, const std
 {
     auto it = natives ().find (name);
     if (it == natives ().end ()) throw std::logic_error ("no native evaluator for opaque call " + name);
-    if constexpr (std::is_same<T, Frac>::value) throw std::logic_error ("opaque call at Frac");
+    if constexpr (std::is_same<T, Frac>::value)
+    {
+        if (!it->second.q) throw std::logic_error ("opaque call at Frac");
+        return it->second.q (args);
+    }
     else if constexpr (std::is_same<T, double>::value) return it->second.d (args);
     else if constexpr (std::is_same<T, float>::value) return it->second.f (args);
     else throw std::logic_error ("opaque call at unsupported element type");
@@ -62,10 +66,34 @@ template <class T> struct TVGen
         }
         return v;
     }
+    // small-integer lattice inputs (Opts::lattice): entries from {-2..2}, with a random share of zeros, and (square
+    // layouts of 9 / 16 slots) a row copied / scaled onto another or a zeroed column in some of the draws
+    static std::vector<T> lattice (std::mt19937_64& g, size_t n, int k, bool nozero)
+    {
+        std::vector<T> v (n);
+        static const int small[] = {-2, -1, 0, 1, 2, 1, -1, 3};
+        int pz = (k % 4) * 25; // share of zeros: 0, 25, 50, 75 %
+        for (size_t i = 0; i < n; ++i)
+        {
+            long x = (int) (g () % 100) < pz ? 0 : small[g () % 8];
+            if (nozero && x == 0) x = 1;
+            v[i] = (T) x;
+        }
+        size_t d = n == 9 ? 3 : n == 16 ? 4 : 0;
+        if (d && !nozero)
+        {
+            unsigned r = (unsigned) (g () % 6);
+            size_t a = g () % d, b = g () % d;
+            if (r == 0 && a != b) { for (size_t c = 0; c < d; ++c) v[a * d + c] = (T) ((long) v[b * d + c] * (long) (1 + g () % 2)); }
+            else if (r == 1) { for (size_t c = 0; c < d; ++c) { if (g () % 3) v[c * d + a] = (T) 0; } }
+            else if (r == 2) { for (size_t c = 0; c < d; ++c) v[c * d + a] = (T) ((c == b) ? 1 : 0); }
+        }
+        return v;
+    }
 };
 
 template <class T>
-inline bool tvOne (const FnRecord& f, void (*body) (Ctx<T>&), const std::vector<T>& in, std::string& detail)
+inline bool tvOne (const FnRecord& f, void (*body) (Ctx<T>&), const std::vector<T>& in, std::string& detail, size_t* leafOut = nullptr)
 {
     Ctx<T> c;
     c.inputs = &in;
@@ -78,6 +106,7 @@ inline bool tvOne (const FnRecord& f, void (*body) (Ctx<T>&), const std::vector<
     std::string       exc;
     bool              ok = ev.run (f, in, vals, ints, exc);
     if (!ok) { detail = "no path of the extracted tree matches"; return false; }
+    if (leafOut) *leafOut = ev.leafIndex;
     if (exc != excReal) { detail = "exception kind: real='" + excReal + "' tree='" + exc + "'"; return false; }
     if (!exc.empty ()) return true;
     if (vals.size () != c.cvals.size () || ints != c.cints) { detail = "result arity / integer results differ"; return false; }
@@ -105,13 +134,17 @@ template <class T> TVFn makeTV (void (*body) (Ctx<T>&))
         size_t nin = 0;
         for (auto& p : f.params) nin += p.vars.size ();
         bool branching = f.paths.size () > 1;
-        for (int k = 0; k < n; ++k)
+        const int extra = tvLatticeExtra ();
+        for (int k = 0; k < n + extra; ++k)
         {
-            auto in = TVGen<T>::values (g, nin, k, branching, nozero);
+            auto in = k < n ? TVGen<T>::values (g, nin, k, branching, nozero) : TVGen<T>::lattice (g, nin, k - n, nozero);
             ++st.evals;
             for (size_t q = 1; q < in.size (); ++q) if (!sameBits (in[q], in[0])) { ++st.nontrivial; break; }
             std::string d;
-            if (!tvOne<T> (f, body, in, d))
+            size_t leaf = (size_t) -1;
+            bool okOne = tvOne<T> (f, body, in, d, &leaf);
+            if (leaf != (size_t) -1) st.hit[&f].insert (leaf);
+            if (!okOne)
             {
                 std::ostringstream s;
                 s.precision (17);
@@ -261,7 +294,8 @@ inline int sym_main (int argc, char** argv)
                 std::vector<const Node*> st; std::set<const Node*> seen;
                 for (auto& p : r->paths) { for (auto& c : p.conds) { st.push_back (c.first.a); st.push_back (c.first.b); } for (auto* v : p.leaf.vals) st.push_back (v); }
                 while (!st.empty ()) { const Node* x = st.back (); st.pop_back (); if (!seen.insert (x).second) continue;
-                    if (x->op == CALL) { auto fi = fnIndex ().find (x->s); if (fi == fnIndex ().end () || fi->second->paths.empty ()) ext = true; }
+                    if (x->op == CALL) { auto fi = fnIndex ().find (x->s); if (fi == fnIndex ().end () || fi->second->paths.empty ())
+                                             { auto ni = natives ().find (x->s); if (ni == natives ().end () || !ni->second.q) ext = true; } }
                     for (auto* k : x->k) st.push_back (k); }
             }
             if (ext) { printf ("RATSKIP %s external-call\n", r->name.c_str ()); continue; }
@@ -329,6 +363,7 @@ inline int sym_main (int argc, char** argv)
             FnRecord*    r = recs[i];
             if (r->status != "ok" || e.tv.empty ()) continue;
             ++fns;
+            tvLatticeExtra () = e.opts.latticeTV * std::max (1, n / 48); // scales with the tier (n = 48 quick)
             for (auto& t : e.tv)
             {
                 std::string detail;
@@ -340,6 +375,9 @@ inline int sym_main (int argc, char** argv)
                 }
                 perType[t.first] += st.evals - before;
             }
+            tvLatticeExtra () = 0;
+            // leaves of the extracted tree reached by the inputs above (all element types together)
+            if (r->paths.size () > 1) printf ("TVPATHS %s hit=%zu paths=%zu\n", r->name.c_str (), st.hit[r].size (), r->paths.size ());
         }
         printf ("TV functions=%ld evaluations=%ld nontrivial=%ld failures=%ld", fns, st.evals, st.nontrivial, bad);
         for (auto& kv : perType) printf (" %s=%ld", kv.first.c_str (), kv.second);
